@@ -94,6 +94,11 @@ def run(ctx: common.Ctx):
     n = 12000 if ctx.thorough else 600
     tasks = [{"seed": ctx.seed, "index": i, "profile": "default"} for i in range(n)]
     tasks += [{"seed": ctx.seed, "index": i, "profile": "small"} for i in range(n // 3)]
+    # hand-built families (reuse / fan-in / data wrappers / one array sent several times)
+    fam_specs = list(G.families())
+    if not ctx.thorough:
+        fam_specs = fam_specs[::2]
+    tasks += [{"seed": 0, "index": sp["index"], "profile": sp["profile"], "spec": sp} for sp in fam_specs]
     try:
         results = distwork.run_pool(distwork.c09_unit, tasks, deadline_s=2400 if ctx.thorough else 500)
     except distwork.WorkTimeout as e:
@@ -114,13 +119,19 @@ def run(ctx: common.Ctx):
             if v:
                 dist[f"pattern:{k}"] += 1
         prog = {"seed": t["seed"], "index": t["index"], "profile": t["profile"]}
-        replay = {"program": prog, "spec": G.generate(t["seed"], t["index"], t["profile"])}
+        replay = {"program": prog, "spec": t.get("spec") or G.generate(t["seed"], t["index"], t["profile"])}
         if res.get("rejected"):
             dist["rejected"] += 1
             from .c08 import reject_signature
-            ctx.violation(reject_signature(res["ranks_find"], pat),
-                          "find_distributed_partition returns no partition for a valid program: "
+            sig = reject_signature(res["ranks_find"], pat)
+            ctx.violation(sig, "find_distributed_partition returns no partition for a valid program: "
                           + json.dumps(res["ranks_find"]), dict(replay, ranks=res["ranks_find"]))
+            if not sig.endswith("payload-through-send-holder"):
+                # the Lean model partitions every valid program (partition_wf): model != real
+                raised = [r for r in res["ranks_find"] if r["status"] == "raised"] or [{"exc": "?"}]
+                ctx.violation(f"model-partition-differs:real-raises:{raised[0]['exc']}",
+                              f"the Lean model of find_distributed_partition returns a (well-formed) partition for "
+                              f"{prog}, the real code raises {raised[0]['exc']}", dict(replay, ranks=res["ranks_find"]))
             continue
         n_comm += st["ncomm"] > 0
         # verify accepts?
@@ -170,6 +181,10 @@ def run(ctx: common.Ctx):
         # Lean
         queries.append(f"(dist checkwf {res['P']})")
         qmeta.append(("wf", prog, res, replay))
+        queries.append(res["skeleton_query"])
+        qmeta.append(("skeleton", prog, res, replay))
+        queries.append(res["partition_query"])
+        qmeta.append(("partition", prog, res, replay))
         if res.get("batches") is not None:
             why = batches_respect_graph(replay["spec"], [[tuple(c) for c in b] for b in res["batches"]])
             if why:
@@ -185,7 +200,7 @@ def run(ctx: common.Ctx):
             ctx.sample({"program": prog, "stats": st, "batches": res.get("batches"),
                         "gathered": res.get("gathered")})
     answers = common.driver_query_parallel(queries)
-    n_wf = n_wf_dis = n_b = n_b_dis = n_nt = n_nt_dis = 0
+    n_wf = n_wf_dis = n_b = n_b_dis = n_nt = n_nt_dis = n_sk = n_sk_dis = n_pm = n_pm_dis = 0
     for (kind, prog, res, replay), a in zip(qmeta, answers):
         if kind == "wf":
             n_wf += 1
@@ -197,6 +212,41 @@ def run(ctx: common.Ctx):
                     ctx.broken.append(f"correspondence:checkWF-rejects-real-partition:{a[:120]}:{prog}")
             elif res["py_clauses"]:
                 ctx.broken.append(f"correspondence:checkWF-accepts-but-python-clauses-fail:{prog}")
+        elif kind == "skeleton":
+            n_sk += 1
+            try:
+                model = distrun.model_skeleton(a)
+                real = [[(p[0], list(p[1]), [tuple(c) for c in p[2]], [[tuple(c) for c in g] for g in p[3]])
+                         for p in parts] for parts in res["real_skeleton"]]
+                diff = distrun.skeleton_difference(real, model)
+            except Exception as e:      # noqa: BLE001
+                diff = (f"unparsable:{type(e).__name__}:{a[:60]}", "unparsable")
+            if diff:
+                n_sk_dis += 1
+                bad_programs.append({"program": prog})
+                ctx.violation(f"model-partition-differs:{diff[1]}",
+                              f"the partition computed by the Lean model of find_distributed_partition (proved "
+                              f"well-formed) differs from the real one for {prog}: {diff[0]}",
+                              dict(replay, difference=diff[0]))
+        elif kind == "partition":
+            n_pm += 1
+            if res["canon_problems"]:
+                n_pm_dis += 1
+                ctx.broken.append(f"harness:cannot-canonicalise-real-names:{res['canon_problems'][0]}:{prog}")
+                continue
+            try:
+                diff = distrun.partition_difference(res["real_partition"], distrun.model_partition(a, replay["spec"]))
+            except Exception as e:      # noqa: BLE001
+                diff = (f"unparsable:{type(e).__name__}:{a[:60]}", "unparsable")
+            if diff:
+                n_pm_dis += 1
+                bad_programs.append({"program": prog})
+                known = ""
+                if pat["send_of_unmodified_recv"] or pat["payload_through_send_holder"]:
+                    known = ":known-pattern"
+                ctx.violation(f"model-partition-differs:{diff[1]}{known}",
+                              f"the partition computed by the Lean model of find_distributed_partition differs from "
+                              f"the real one for {prog}: {diff[0][:300]}", dict(replay, difference=diff[0]))
         elif kind == "batches":
             n_b += 1
             try:
@@ -232,7 +282,9 @@ def run(ctx: common.Ctx):
                        "batches, batches vs Lean model, integer tags across ranks, tag table vs Lean numberTags",
                    comparisons={"checkWF": [n_wf, n_wf_dis], "python_clauses": [n_py, n_py_dis],
                                 "verify_accepts": [n_ver, n_ver_dis], "parts_vs_batches": [n_parts, n_parts_dis],
-                                "batches_vs_model": [n_b, n_b_dis], "tags_across_ranks": [n_tag, n_tag_dis],
+                                "batches_vs_model": [n_b, n_b_dis],
+                                "model_partition_skeleton_vs_real": [n_sk, n_sk_dis],
+                                "model_partition_full_vs_real": [n_pm, n_pm_dis], "tags_across_ranks": [n_tag, n_tag_dis],
                                 "tag_table_vs_numberTags": [n_nt, n_nt_dis]})
     ctx.coverage["programs"] = len(tasks)
     ctx.coverage["program_distribution"] = dict(sorted(dist.items()))
